@@ -472,6 +472,12 @@ func (s *Set) Value(_ context.Context, t *dials.Type) (reflect.Value, error) {
 			return
 		}
 
+		if !fval.Type().ConvertibleTo(stripTypePtr(ffield.Type())) {
+			// e.g. a field with more than one pointer level (**int)
+			setErr = fmt.Errorf("value for flag %q of type %s cannot be converted to type %s of field %s",
+				f.Name, fval.Type(), stripTypePtr(ffield.Type()), fieldName)
+			return
+		}
 		if willOverflow(fval, ptrVal.Elem()) {
 			setErr = fmt.Errorf("value for flag %q (%s) would overflow type %s",
 				f.Name, f.Value.String(), ptrVal.Type().Elem())
